@@ -4,10 +4,10 @@ import Tea.Doc.KeyTable
 /-
 C08 — Every documented key sequence decodes to its key, in any context.
 
-"Every documented escape sequence, control character and printable character decodes to
+"Every documented escape sequence, control character and printableScalar character decodes to
 the documented key (type, characters, alt flag) when it arrives alone, with an ESC prefix
 meaning alt, or anywhere inside a stream of other well-formed events read together; the
-longest known sequence always wins, consecutive printable characters arrive as one rune
+longest known sequence always wins, consecutive printableScalar characters arrive as one rune
 message in order, space and NUL keep their dedicated keys, unknown CSI sequences are
 consumed whole instead of leaking as text, a focus-in/out report arriving on its own
 becomes a focus/blur message, and decoded events are delivered in input order."
@@ -31,7 +31,7 @@ Vocabulary (all in `Tea/Input/RefDecoder.lean`, a spec file):
 * `NotExtended T s rest`  no key of `T` that is a prefix of `s ++ rest` is longer than `s`;
 * `NoKeyPrefix T b`   no key of `T` is a prefix of `b`;
 * `WFTable T`         every key starts with a control byte, space or DEL;
-* `printable r`       valid scalar, not a control character, not space, not DEL, not U+FFFD;
+* `printableScalar r`       valid scalar, not a control character, not space, not DEL, not U+FFFD;
 * `stopsRun rest`     `rest` is empty or starts with something the rune loop stops at;
 * `StreamOK T lens evs`  each event of the stream decodes to its message in front of the rest.
 Only property theorems live here; helper lemmas are in `Tea/Proofs/Sequences.lean` and
@@ -168,14 +168,14 @@ theorem C08_alt_alone : ∀ e ∈ Tea.Doc.sequences, e.key.alt = false →
       .ok (e.seq.length + 1, some (.key { e.key with alt := true })) :=
   fun _ he halt => C08_alone _ (mem_deriveExt_alt he halt)
 
-/-! ### 4. consecutive printable characters arrive as one rune message, in order -/
+/-! ### 4. consecutive printableScalar characters arrive as one rune message, in order -/
 
-/-- a non-empty run of printable characters (any valid scalar values except control characters,
+/-- a non-empty run of printableScalar characters (any valid scalar values except control characters,
 space, DEL and U+FFFD), UTF-8 encoded, followed by nothing or by something that stops the run,
 is delivered as ONE KeyRunes message carrying exactly those characters in order, and consumes
 exactly the bytes of the run — for every well-formed table. -/
 theorem C08_rune_run (T : Table) (lens : List Nat) (hT : WFTable T) (rs : List Nat) (hne : rs ≠ [])
-    (hrs : ∀ r ∈ rs, printable r = true) (rest : Bytes) (hstop : stopsRun rest = true) :
+    (hrs : ∀ r ∈ rs, printableScalar r = true) (rest : Bytes) (hstop : stopsRun rest = true) :
     detectOneMsg T lens (encodeRunes rs ++ rest) false =
       .ok ((encodeRunes rs).length, some (.key { type := keyRunes, runes := rs })) := by
   cases rs with
